@@ -374,8 +374,10 @@ FASTOR_INLINE __m256 _mm256_shift2_ps(__m256 a) {
     return _mm256_blend_ps(r1,r2,0x33);
 }
 FASTOR_INLINE __m256 _mm256_shift3_ps(__m256 a) {
-    // IVY 1OPS / HW 3OPS
-    return _mm256_permute2f128_ps(a,a,41);
+    // rotate every 128-bit half left by three lanes, then take lanes 0-2 of each half from the half below
+    __m256 r1 = _mm256_permute_ps(a,_MM_SHUFFLE(0,3,2,1));
+    __m256 r2 = _mm256_permute2f128_ps(r1,r1,41);
+    return _mm256_blend_ps(r1,r2,0x77);
 }
 FASTOR_INLINE __m256 _mm256_shift4_ps(__m256 a) {
     // IVY 1OPS / HW 3OPS
